@@ -136,12 +136,12 @@ PROPS["C09"] = dict(
 PROPS["C10"] = dict(
     title="Revisions follow commit order; linearizable reads see all acknowledged writes",
     design_ref="DESIGN.md section 7 (C10)",
-    run_files=["Run/FsmRun.v"],
-    engines=[dict(cmd=["c10"], corr="Model.Linear + Model.Fsm <-> table.ActiveTable.{Put,Delete,Txn,Range} over a simulated Raft host with real fsm.FSM replicas")],
-    level_text="Theorems: every API mutation (incl. a transaction with an empty executed branch) reports revision = its log index, revisions of a log are its indices in order, a replica with k >= a applied entries contains all a acknowledged writes, serializable reads answer from a prefix state; the read-path choice of the table layer is checked on the real table.ActiveTable with a simulated Raft host (three real FSM replicas, seed-chosen lag and batching), whose responses are also compared with the model and the specification; a range read delivered in several messages with a transaction applied between two of them must be one state; two identical linearizable reads overlapping an acknowledged write (the later one must see it); an error from the table layer for a committed request is a violation.",
+    run_files=["Run/FsmRun.v", "Run/C10Run.v", "Mutants/LinearMutants.v"],
+    engines=[dict(cmd=["c10"], corr="Model.Linear + Model.Fsm <-> table.ActiveTable.{Put,Delete,Txn,Range} over a simulated Raft host with real fsm.FSM replicas; Model.Linear serve_at/engine paths <-> storage.Engine.{Range,IterateRange,Txn} on a real three-node cluster with held apply loops")],
+    level_text="Theorems: every API mutation (incl. a transaction with an empty executed branch) reports revision = its log index, revisions of a log are its indices in order, a replica with k >= a applied entries contains all a acknowledged writes, serializable reads answer from a prefix state; the read-path choice of the table layer is checked on the real table.ActiveTable with a simulated Raft host (three real FSM replicas, seed-chosen lag and batching), whose responses are also compared with the model and the specification; a range read delivered in several messages with a transaction applied between two of them must be one state; two identical linearizable reads overlapping an acknowledged write (the later one must see it); an error from the table layer for a committed request is a violation. Engine layer (storage/engine.go): theorems that a linearizable Range/IterateRange and every read-only transaction, on a leader or a follower at any lag, is served from a state including every acknowledged write (the leader-answers-locally variant refuted in Mutants/LinearMutants.v); three real storage.Engines on loopback with one three-replica table: the apply loop of each replica in turn - so also the leader's - is held behind a write acknowledged through another replica, the held replica is asked for linearizable Range, IterateRange and a read-only Txn (no answer is fine, an answer without the write is a violation; released while a read waits, the read answers with the write), every read compared with the model's serving position.",
     level_note="Trusts: Coq kernel; dragonboat's ReadIndex contract is an explicit assumption (embodied by the simulated host); concurrency between clients is represented by the commit order only (sequential client scripts); Pebble-as-sorted-map.",
     technique="Coq proof (prefix/append lemmas over spec_entries) + simulated-Raft-host differential check through table.ActiveTable",
-    trusted=_FSM_TRUSTED + ["simulated Raft host in the harness (harness/c10.go) standing for dragonboat NodeHost"], label=fsm_label,
+    trusted=_FSM_TRUSTED + ["simulated Raft host in the harness (harness/c10.go) standing for dragonboat NodeHost (the three-engine cluster of harness/c10cluster.go runs the real one)"], label=fsm_label,
     assumptions=["ReadIndex contract: a SyncRead started when a entries are committed is served from a state with >= a applied entries", "log indices strictly increase"],
 )
 
